@@ -31,6 +31,29 @@ let run_case op t =
       let show (e, p) = "ok " ^ str_of_z e ^ " " ^ str_of_z p in
       let m = match tfp_scan v with Ok r -> show r | Contract -> "contract" | UB _ -> "ub" | OutOfFuel -> "outoffuel" in
       (m, show (tfp_spec (vchars v)))
+  | "fromfloat" ->
+      (* fromfloat <whole> <k> <m> <precision> <n>: val = whole + k / 2^m (exact in double), span of n characters 'x' *)
+      let whole = next_big t in
+      let k = next_big t in
+      let m = next_int t in
+      let prec = next_int t in
+      let n = next_int t in
+      (* outside the model: part = static_cast<int_type>(frac * 10^precision) = floor(k * 10^precision / 2^m) *)
+      let part = Big.div (Big.mul k (Big.pow (Big.of_int 10) prec)) (Big.pow (Big.of_int 2) m) in
+      let buf = List.init n (fun _ -> z_of_int 120) in
+      let show b e p = "ok " ^ str_of_z e ^ " " ^ (match p with None -> "null" | Some q -> str_of_z q) ^ " " ^ zlist_s b in
+      let zw = z_of_big whole and zp = z_of_big part and zprec = z_of_int prec in
+      let mleg = match ffp_m zw zp zprec buf with
+        | Ok ((b, e), p) -> show b e p | Contract -> "contract" | UB _ -> "ub" | OutOfFuel -> "outoffuel" in
+      let sleg = match ffp_text zw zp zprec, to_string_chars zw Z0 with
+        | Some txt, Some w ->
+            let l = List.length txt in
+            if l + 1 <= n then
+              show (txt @ [Z0] @ List.init (n - l - 1) (fun _ -> z_of_int 120)) Z0
+                (if prec = 0 then None else Some (z_of_int (List.length w)))
+            else show buf (z_of_int 1) (Some Z0)
+        | _, _ -> "na" in
+      (mleg, sleg)
   | _ -> raise Not_found
 
 let () = main run_case
